@@ -841,11 +841,33 @@ class Machine:
         if base in ('BitAnd', 'BitOr', 'BitXor') and isinstance(a, Int) and isinstance(b, Int):
             return self.bitop(st, base, a, b, tys)
         if base in ('Shl', 'Shr') and isinstance(a, Int) and isinstance(b, Int) and b.is_const():
+            ii = int_info(tys)
             if a.is_const():
-                return Int.const((a.c << b.c) if base == 'Shl' else (a.c >> b.c))
+                v_ = (a.c << b.c) if base == 'Shl' else (a.c >> b.c)
+                if base == 'Shl' and ii:
+                    v_ &= (1 << ii[0]) - 1
+                    if ii[1] and v_ >= 1 << (ii[0] - 1):
+                        v_ -= 1 << ii[0]
+                return Int.const(v_)
+            lo, hi = self.rng(st, a)
+            if lo >= 0 and 0 <= b.c < 128:
+                if base == 'Shl':
+                    res = Int([(s_, k_ << b.c) for s_, k_ in a.terms], a.c << b.c)
+                    if self.fit(st, res, tys):
+                        return res
+                else:
+                    r_ = self.blockwise(st, a, 1 << b.c, lo, hi, 'div')
+                    if r_ is not None:
+                        return r_
         if base in ('Div', 'Rem') and isinstance(a, Int) and isinstance(b, Int) and a.is_const() and b.is_const() and b.c != 0:
             q = abs(a.c) // abs(b.c) * (1 if (a.c >= 0) == (b.c >= 0) else -1)
             return Int.const(q if base == 'Div' else a.c - q * b.c)
+        if base in ('Div', 'Rem') and isinstance(a, Int) and isinstance(b, Int) and b.is_const() and b.c > 0:
+            lo, hi = self.rng(st, a)
+            if lo >= 0:
+                r_ = self.blockwise(st, a, b.c, lo, hi, 'div' if base == 'Div' else 'rem')
+                if r_ is not None:
+                    return r_
         if base == 'Cmp':
             return Atom(fresh('ordering'))
         if base == 'Offset':
@@ -934,6 +956,19 @@ class Machine:
             nm = lambda x: x.name if isinstance(x, Atom) else repr(x)
             return Atom('%s(%s,%s)' % (op, nm(a), nm(b)), {'s': 'bool', 'k': 'bool'})
         return Atom(fresh('cmp'), {'s': 'bool', 'k': 'bool'})
+
+    def blockwise(self, st, a, blk, lo, hi, what):
+        """a div blk / a rem blk for a non-negative linear value: exact inside one block of `blk` consecutive values (quotient
+        constant, remainder = a - base); a value spanning several blocks is partitioned at the block boundaries"""
+        if lo // blk == hi // blk:
+            q = lo // blk
+            return Int.const(q) if what == 'div' else lin_add(a, Int.const(q * blk), -1)
+        sg = a.single()
+        if sg and sg[1] == 1:
+            cuts = [c_ - sg[2] for c_ in range((lo // blk + 1) * blk, hi + 1, blk)]
+            if len(cuts) <= 64:
+                raise NeedSplit(sg[0], cuts)
+        return None
 
     def bitop(self, st, op, a, b, tys):
         if a.is_const() and b.is_const():
@@ -1094,6 +1129,13 @@ class Machine:
                     ii = int_info(dest_ty['s'])
                     if ii:
                         return Int.const((~a.c) & ((1 << ii[0]) - 1) if not ii[1] else ~a.c)
+                if isinstance(a, Int):
+                    # two's complement: !x == -1 - x (signed), == MAX - x (unsigned)
+                    ii = int_info(dest_ty.get('s', ''))
+                    if ii:
+                        res = lin_add(Int.const(-1 if ii[1] else (1 << ii[0]) - 1), a, -1)
+                        if self.fit(st, res, dest_ty['s']):
+                            return res
                 return Atom(fresh('not'), dest_ty)
             if op == 'Neg':
                 if isinstance(a, Int):
